@@ -71,6 +71,13 @@ def run_case(c, rng):
                     spec['controls'].append({'kind': 'time', 'name': 'par_%s_%d_%d' % (p['name'], t, len(spec['controls'])), 'time': t,
                                              'target': p['name'], 'attr': 'status',
                                              'value': 'CLOSED' if p['status'] == 'OPEN' else 'OPEN'})
+    # a valve as the only way into a zone, CLOSED at the start and brought back by a control on its *setting* (the status change
+    # reaches the model through the simulator's hidden companion control): side stream seeded by the case
+    import random as _random
+    side = _random.Random(c.index * 86028121 + len(spec['pipes']) * 17 + len(spec['junctions']))
+    if side.random() < 0.3:
+        if gnet.add_valve_cut(spec, side) is not None:
+            c.count('valve_cut_cases')
     wn = gnet.build(spec)
     sample = {'spec': spec}
     c.sample = {'spec_summary': gnet.signature(spec), 'isolation_schedule': sched}
